@@ -77,6 +77,15 @@ func runProp(cfg *vc.Config, rep *vc.Report, gen func(*vc.Rand) *Scenario, oracl
 		account(rep, cfg, -3, 0, &Scenario{Kind: "burst-" + kind}, run, oracle(run.Obs))
 		return
 	}
+	if cfg.Mode == "failstorm" {
+		// the store refuses the k-th batch while free-running writers keep the job runner busy
+		cfg.Cases(400, 20000, func(i int, r *vc.Rand) {
+			run := runFailStorm(r.Fork())
+			rep.Inc("failstorm_rounds")
+			account(rep, cfg, i, 0, &Scenario{Kind: "failstorm"}, run, oracle(run.Obs))
+		})
+		return
+	}
 	cfg.Cases(quick, thorough, func(i int, r *vc.Rand) {
 		sc := gen(r.Fork())
 		for k := 0; k < nSched; k++ {
